@@ -1621,7 +1621,10 @@ impl Op {
                 // IEEE 1800 11.4.3.1 (power operator rules): a negative exponent yields 0 / 1 / ±1 / x by
                 // the base value; `to_usize` would reinterpret it as a huge
                 // unsigned magnitude and compute modular-inverse garbage.
-                let y_negative = y.signed()
+                // An exponent with any x/z bit is unknown, not negative: it takes the
+                // all-x path below like every other x/z exponent.
+                let y_negative = !y.is_xz()
+                    && y.signed()
                     && match y {
                         Value::U64(v) => v.width > 0 && (v.payload >> (v.width - 1)) & 1 == 1,
                         Value::BigUint(v) => v.width > 0 && v.payload.bit(v.width as u64 - 1),
